@@ -225,7 +225,8 @@ pub fn scientific_literal(input: ParseString) -> ParseResult<RealNumber> {
         (input, (exponent, Token::default()))
       }
       Err(err) => {return Err(err);}
-      _ => unreachable!(),
+      // e.g. `1.0e3u8`: an exponent cannot carry a kind suffix
+      Ok((rest, _)) => {return Err(nom::Err::Error(ParseError::new(rest, "Unexpected character")));}
     }
   };
   let ex_sign = match neg {
